@@ -291,5 +291,11 @@ func genC18(c *Ctx) {
 			}
 		}
 	}
+	for what := 0; what < 3; what++ {
+		c.Check("c18.stop_twice", U(uint64(what)))
+	}
+	for rc := 0; rc < 8; rc++ {
+		c.Check("c18.challenge_rcode", U(uint64(rc)))
+	}
 	c.Note("runtime_support", "c18.isolation_burst, c18.concurrent_clients, c18.shutdown, c18.tcp_pipelining and the llmnr loopback oracles are runtime support, not proof")
 }
